@@ -59,6 +59,20 @@ theorem amd64_classify_counterexample : ¬ Amd64ClassifySoundFull := by
 theorem amd64_classify_illformed :
     (classify (.struct [.sc .i8, .struct [.sc .i8, .sc .i32]]) false).wellFormed = false := by decide
 
+/-- **The proposed repair (fixes/C09-1.diff) changes no classification of a naturally laid out shape**, so it
+    inherits `amd64_classify_sound` there; on the other shapes it is judged by the decidable `Sound` checker on
+    every generated input (design/C09.md). -/
+theorem amd64_repair_conservative (t : CType) (h : t.view.natural) (isRet : Bool) :
+    classifyFixedV t.view isRet = classify t isRet ∧ Sound (classifyFixedV t.view isRet) t.view := by
+  have e := classifyFixedV_eq_natural t.view h isRet
+  exact ⟨e, e ▸ amd64_classify_sound t h isRet⟩
+
+/-- … and it classifies the two witnesses of the nested-padding defect soundly -/
+example : Sound (classifyFixedV (CType.struct [.sc .i8, .sc .i8, .sc .i8, .sc .i8, .sc .i8, .struct [.sc .i8, .sc .i32]]).view false)
+    (CType.struct [.sc .i8, .sc .i8, .sc .i8, .sc .i8, .sc .i8, .struct [.sc .i8, .sc .i32]]).view := by decide
+example : Sound (classifyFixedV (CType.struct [.sc .i8, .struct [.sc .i8, .sc .i32]]).view false)
+    (CType.struct [.sc .i8, .struct [.sc .i8, .sc .i32]]).view := by decide
+
 /-! ## Placement of a whole parameter list -/
 
 def sigNatural (sig : Sig) : Prop := (∀ t ∈ sig.ret, t.view.natural) ∧ ∀ t ∈ sig.params, t.view.natural
